@@ -216,6 +216,8 @@ fn run(args: &[String]) {
     let mut fresh_sessions = 0u64;
     let mut graph_judgements = 0u64;
     let mut inline_judgements = 0u64;
+    let mut generative_judgements = 0u64;
+    let mut generative_rejections = 0u64;
     let mut by_kind: BTreeMap<String, u64> = BTreeMap::new();
     let mut faults_fired: BTreeMap<String, u64> = BTreeMap::new();
     let mut probes: BTreeMap<String, u64> = BTreeMap::new();
@@ -275,6 +277,8 @@ fn run(args: &[String]) {
             fresh_sessions += stats["fresh_sessions"].as_u64().unwrap_or(0);
             graph_judgements += stats["graph_judgements"].as_u64().unwrap_or(0);
             inline_judgements += stats["inline_judgements"].as_u64().unwrap_or(0);
+            generative_judgements += stats["generative_judgements"].as_u64().unwrap_or(0);
+            generative_rejections += stats["generative_rejections"].as_u64().unwrap_or(0);
             for (name, target) in [
                 ("by_kind", &mut by_kind),
                 ("faults_fired", &mut faults_fired),
@@ -346,6 +350,8 @@ fn run(args: &[String]) {
         "runs": totals_runs, "enumerated_graph_runs": enumerated_runs, "ops_executed": ops_executed, "ops_skipped_by_precondition": ops_skipped,
         "queries": queries, "fresh_sessions": fresh_sessions, "graph_judgements": graph_judgements,
         "inline_judgements": inline_judgements,
+        "generative_judgements": generative_judgements,
+        "generative_rejections": generative_rejections,
         "by_kind": by_kind, "faults_fired": faults_fired, "probes": probes, "answer_kinds": answer_kinds,
         "histories": histories.iter().map(|h| h.to_string()).collect::<Vec<_>>(),
         "nontrivial_histories": nontrivial_histories.iter().map(|h| h.to_string()).collect::<Vec<_>>(),
